@@ -382,9 +382,23 @@ def inline_temps(fn, candidates):
             continue
         impure = _has_impure_call(rhs)
         if impure:
-            # only: read exactly once, in the very next statement, and not inside a loop/branch body of that statement
+            # only: read exactly once, in the next statement that is not a call-free plain assignment (those commute with the
+            # binding: they neither call anything nor touch what it reads or writes), and not inside a loop/branch body of it
             if len(loads) != 1 or not later:
                 continue
+            skip = 0
+            while skip < len(later) and isinstance(later[skip], ast.Assign) and not _has_impure_call(later[skip].value) and \
+                    not any(x.id == name for x in _loads(later[skip])) and not (_write_roots(later[skip]) & _read_roots(rhs)) and \
+                    all(isinstance(t, ast.Name) for t in later[skip].targets):
+                skip += 1
+            if skip >= len(later):
+                continue
+            if skip:
+                # move the binding down to just before its use (the skipped statements commute with it)
+                block[idx:idx + 1 + skip] = block[idx + 1:idx + 1 + skip] + [block[idx]]
+                idx += skip
+                st = block[idx]
+                later = block[idx + 1:]
             nxt = later[0]
             if isinstance(nxt, (ast.For, ast.While, ast.If, ast.With, ast.Try, ast.FunctionDef)):
                 hdr = [getattr(nxt, f, None) for f in ('test', 'iter')]
